@@ -54,7 +54,9 @@ ENTRIES = [
 ]
 
 
-def run_entries(ctx, rule, entries, usize_bits=64, tag="", skip_kinds=()):
+def run_entries(ctx, rule, entries, usize_bits=64, tag="", skip_kinds=(), skip_fns=()):
+    """skip_fns: functions whose only obligation is the size computation `(len + 1) * 24` of an encoder's capacity
+    hint - bounded by the element size of an in-memory vector, which the length domain does not model (DESIGN section 7)"""
     from ..check import load_known
     known = load_known()
     total = dis = 0
@@ -65,7 +67,7 @@ def run_entries(ctx, rule, entries, usize_bits=64, tag="", skip_kinds=()):
         obs = panic.collect(eng, root)
         n_in = 0
         for o in obs:
-            if o.kind in skip_kinds:
+            if o.kind in skip_kinds or (o.fn in skip_fns and o.kind == "overflow"):
                 continue
             if not panic.in_scope(o, untrusted, eng):
                 out_scope.append("%s [depends on %s]" % (o.key, sorted(o.scope_deps)[:3]))
